@@ -473,6 +473,12 @@ func (e *forcedEnv) runCacheFamily(fam, variant string, n int, res *forcedResult
 		if rest, ok := strings.CutPrefix(variant, "mgr"); ok {
 			third, kinds = true, strings.TrimPrefix(rest, "/")
 		}
+		// "late/…" (NOT part of the check, see notes/C09.md F6): a search runs from start to end after writer 1 has
+		// given the cache up and before writer 2 goes on
+		late := false
+		if rest, ok := strings.CutPrefix(variant, "late"); ok {
+			late, kinds = true, strings.TrimPrefix(rest, "/")
+		}
 		k1, k2, _ := strings.Cut(kinds, "+")
 		if kinds == "" || kinds == "any" {
 			k1, k2 = wopKinds[e.rng.Intn(3)], []string{"insertV", "insertF", "insert", "delete", "move"}[e.rng.Intn(5)]
@@ -527,10 +533,15 @@ func (e *forcedEnv) runCacheFamily(fam, variant string, n int, res *forcedResult
 			must(c.RunUntil("S", "With.lookup", 1), "arrived") // holds the manager lock
 		}
 		s1 := c.RunUntil("W1", "", 0)
+		if late && s1.Kind == "done" {
+			e.searcher("S", qS)
+			sS = c.RunUntil("S", "", 0)
+			third = true
+		}
 		if s2.Kind != "done" {
 			s2 = c.RunUntil("W2", "", 0)
 		}
-		if third {
+		if third && !late {
 			sS = c.RunUntil("S", "", 0)
 		}
 		if s1.Kind != "done" {
